@@ -17,6 +17,7 @@ import (
 	"strconv"
 	"strings"
 	"sync"
+	"sync/atomic"
 	"time"
 
 	"github.com/redis/rueidis"
@@ -31,11 +32,20 @@ type Case struct {
 	Multi    bool   `json:"multi"` // through DoMulti (two commands) instead of Do
 	Write    bool   `json:"write"` // SET (not retryable) instead of GET
 	Val      string `json:"val"`
+	// cached paths (scenario "cached"): see cached.go
+	Op   string   `json:"op,omitempty"`   // get | mget | jsonmget | multicache | mgetcache
+	Mode string   `json:"mode,omitempty"` // ok | cancel | timeout  (cancel/timeout: abandoned while queued behind a stalled write)
+	View string   `json:"view,omitempty"` // user | internal: which command's life is reported to the model
+	Keys []string `json:"keys,omitempty"`
 }
 
 var scenarios = []string{"ok", "err", "drop", "drop-retry", "loading-retry", "stall", "slowread", "precancel"}
 
 func genCase(r *gen.Rand, i int) any {
+	if k := i % (len(scenarios) + len(cachedCombos)); k >= len(scenarios) {
+		return genCached(r, k-len(scenarios))
+	}
+	i = i % (len(scenarios) + len(cachedCombos))
 	return Case{Scenario: scenarios[i%len(scenarios)], Pinned: r.Chance(1, 4), Multi: r.Chance(1, 3), Write: r.Chance(1, 3),
 		Val: string(r.Bytes(r.Range(1, 40)))}
 }
@@ -53,7 +63,12 @@ type server struct {
 	received         [][]string                     // complete test commands received (first token GET/SET)
 	behave           func(conn int, nth int) string // for the nth test command on connection conn: ok | err | drop | loading | stall
 	conns            int
-	blockWritesUntil time.Time // the client's writes do not get through before this instant
+	blockWritesUntil time.Time  // the client's writes do not get through before this instant
+	resp3            bool       // answer HELLO 3 (client-side caching needs RESP3)
+	all              [][]string // every frame received, in order (one connection in the cached scenarios)
+	armed            atomic.Bool
+	gate             chan struct{} // closed to release the writes held while armed
+	entered          chan struct{} // signalled when a write is being held
 }
 
 func readCmd(br *bufio.Reader) ([]string, error) {
@@ -68,7 +83,7 @@ func readCmd(br *bufio.Reader) ([]string, error) {
 	if err != nil {
 		return nil, err
 	}
-	out := make([]string, 0, n)
+	out := make([]string, 0, max(n, 0))
 	for i := 0; i < n; i++ {
 		l, err := br.ReadString('\n')
 		if err != nil {
@@ -94,12 +109,27 @@ func (s *server) serve(c net.Conn, id int) {
 	defer c.Close()
 	br := bufio.NewReader(c)
 	nth := 0
+	inMulti := false
+	var queued [][]string
 	for {
 		argv, err := readCmd(br)
 		if err != nil {
 			return
 		}
-		switch strings.ToUpper(argv[0]) {
+		s.mu.Lock()
+		s.all = append(s.all, argv)
+		s.mu.Unlock()
+		if len(argv) == 0 {
+			c.Write([]byte("-ERR empty command\r\n"))
+			continue
+		}
+		name := strings.ToUpper(argv[0])
+		if s.resp3 {
+			if s.serve3(c, name, argv, &inMulti, &queued) {
+				continue
+			}
+		}
+		switch name {
 		case "GET", "SET":
 			s.mu.Lock()
 			s.received = append(s.received, argv)
@@ -138,6 +168,13 @@ type slowConn struct {
 }
 
 func (c slowConn) Write(b []byte) (int, error) {
+	if c.s.armed.Load() {
+		select {
+		case c.s.entered <- struct{}{}:
+		default:
+		}
+		<-c.s.gate
+	}
 	for {
 		c.s.mu.Lock()
 		until := c.s.blockWritesUntil
@@ -170,6 +207,9 @@ func (s *server) got() [][]string {
 
 func run(ci any) (res obs.Result) {
 	c := ci.(Case)
+	if c.Scenario == "cached" {
+		return runCached(c)
+	}
 	res.Kind = c.Scenario
 	res.Site, res.Class = "client.go:Do/DoMulti", "early-recycle"
 	srv := &server{}
